@@ -414,6 +414,7 @@ func c03One(text, fam string) (*core.Viol, bool) {
 	if !r.clean() {
 		return nil, false
 	}
+	_ = corpusMustAccept // (rejection of a valid text is C15's / C08's business)
 	mk := func(class, detail string) *core.Viol {
 		return &core.Viol{Class: class, Detail: detail, Case: core.BytesCase(fam, "", src)}
 	}
